@@ -10,6 +10,17 @@ BASELINE = ("cd /repo && /venv/bin/python -m pytest -ra -q -p no:cacheprovider -
 
 # id -> (category, technique, level text, level note, design ref)
 CHECKS = {
+    "C10": ("exploration",
+            "Hypothesis-generated document lists x serialisations x sub-classing x entry points; graph-shape "
+            "predicate evaluated with rdflib triple patterns + import round trip on a typed snapshot",
+            "The exported graph is re-parsed with rdflib and checked with plain triple patterns against the "
+            "shape the property states (Hub, one typed node per object, literal predicates == set attributes, "
+            "containment edges == tree, ordered rdf:Seq per valued Property, sub-class triples); the import "
+            "must return one document per exported document, equal on the listed attributes up to sibling "
+            "order. Sampling only.",
+            "rdflib 7.6 as installed; two open known findings (uncertainty imported as text - pinned by the "
+            "repository's tests; doubles shortened by rdflib's turtle/n3 writers - dependency).",
+            "DESIGN.md section 5, C10"),
     "C16": ("exploration",
             "Hypothesis grammar-based and mutation-based input generation for the XML and dictionary readers "
             "plus a coverage-guided atheris (libFuzzer) campaign; outcome-classification oracle with exception "
